@@ -119,14 +119,148 @@ Section Sound.
     rewrite (map_filter (fun x : series * Z => keep wo g (fst x)) p v), nodup_keys_filter. apply M.
   Qed.
 
-  (* the result series of e on shard i are the result series of e on all data that belong to shard i *)
-  Theorem shard_commutes e : sound_for by_ set e = true -> forall D i,
-    qeval e (filter (in_shard H by_ set n i) D) = filter (in_shard H by_ set n i) (qeval e D).
+  (* ---- binary operations ---- *)
+  Lemma has_dup_filter (p : series -> bool) : forall ks, has_dup ks = false -> has_dup (filter p ks) = false.
   Proof.
-    induction e as [ms|op wo g e IH]; intros S D i.
-    - cbn [qeval]. apply filter_comm.
-    - cbn [sound_for] in S. apply andb_true_iff in S as [S1 S2]. cbn [qeval]. rewrite IH by exact S2.
-      apply aggregate_shard. intro ls. apply keep_shard. exact S1.
+    induction ks as [|k r IH]; intro Hd; [reflexivity|]. cbn [has_dup] in Hd. apply orb_false_iff in Hd as [H1 H2].
+    cbn [filter]. destruct (p k); [|apply IH; exact H2]. cbn [has_dup]. rewrite (IH H2), orb_false_r.
+    destruct (existsb (series_eqb k) (filter p r)) eqn:E; [|reflexivity].
+    apply existsb_exists in E as (y & Hy & Ey). apply filter_In in Hy as [Hy _].
+    assert (existsb (series_eqb k) r = true) by (apply existsb_exists; exists y; auto). congruence.
+  Qed.
+
+  Lemma find_filter {A} (q r : A -> bool) : (forall y, q y = true -> r y = true) ->
+    forall l, find q (filter r l) = find q l.
+  Proof.
+    intros Hqr. induction l as [|y l IH]; [reflexivity|]. cbn [filter find]. destruct (r y) eqn:R.
+    - cbn [find]. destruct (q y); [reflexivity | exact IH].
+    - destruct (q y) eqn:Q; [rewrite (Hqr y Q) in R; discriminate | exact IH].
+  Qed.
+
+  Lemma existsb_filter {A} (q r : A -> bool) : (forall y, q y = true -> r y = true) ->
+    forall l, existsb q (filter r l) = existsb q l.
+  Proof.
+    intros Hqr. induction l as [|y l IH]; [reflexivity|]. cbn [filter existsb]. destruct (r y) eqn:R.
+    - cbn [existsb]. rewrite IH. reflexivity.
+    - rewrite IH. destruct (q y) eqn:Q; [rewrite (Hqr y Q) in R; discriminate | reflexivity].
+  Qed.
+
+  Lemma filter_map_comm {A B} (f : A -> B) (P : B -> bool) l : filter P (map f l) = map f (filter (fun x => P (f x)) l).
+  Proof. induction l as [|x l IH]; [reflexivity|]. cbn. destruct (P (f x)); cbn; rewrite IH; reflexivity. Qed.
+
+  Lemma filter_nil_all {A} (p : A -> bool) l : (forall x, In x l -> p x = false) -> filter p l = [].
+  Proof.
+    induction l as [|x l IH]; intro Hl; [reflexivity|]. cbn. rewrite (Hl x) by (left; reflexivity).
+    apply IH. intros; apply Hl; right; assumption.
+  Qed.
+
+  Definition is_nil {A} (l : list A) : bool := match l with [] => true | _ => false end.
+
+  Lemma is_nil_true {A} (l : list A) : is_nil l = true -> l = [].
+  Proof. destruct l; [reflexivity | discriminate]. Qed.
+
+  Lemma bin_eval_eq op on ls vl vr :
+    bin_eval op on ls vl vr =
+    if is_nil vl || is_nil vr then Some []
+    else if has_dup (map (bsig on ls) vr) then None
+    else if has_dup (map (bsig on ls) (filter (bmatched on ls vr) vl)) then None
+    else if has_dup (map fst (map (bout op on ls vr) (filter (bmatched on ls vr) vl))) then None
+    else Some (map (bout op on ls vr) (filter (bmatched on ls vr) vl)).
+  Proof. destruct vl, vr; reflexivity. Qed.
+
+  Lemma bin_eval_shard (op : binop) (on : bool) (ls : list str) (i : N) (vl vr V : vector) :
+    (forall s, sh (keep (negb on) ls s) = sh s) ->
+    (forall s, sh (drop_name (keep (negb on) ls s)) = sh (keep (negb on) ls s)) ->
+    bin_eval op on ls vl vr = Some V ->
+    bin_eval op on ls (filter (in_shard H by_ set n i) vl) (filter (in_shard H by_ set n i) vr)
+    = Some (filter (in_shard H by_ set n i) V).
+  Proof.
+    intros K1 K2 E. rewrite bin_eval_eq in *.
+    set (sig := bsig on ls) in *.
+    set (Pi := in_shard H by_ set n i).
+    set (p := fun k : series => N.eqb (sh k) i).
+    assert (PK : forall x, Pi x = p (sig x)).
+    { intro x. unfold Pi. rewrite in_shard_sh. unfold p, sig, bsig. rewrite K1. reflexivity. }
+    set (q := bmatched on ls) in *.
+    set (f := bout op on ls) in *.
+    assert (PF : forall R x, Pi (f R x) = Pi x).
+    { intros R x. unfold Pi at 1. rewrite in_shard_sh. unfold f, bout. cbn [fst]. unfold bsig at 1. rewrite K2.
+      rewrite PK. reflexivity. }
+    (* a partner of x lies on the same shard as x *)
+    assert (SAME : forall x y, series_eqb (sig y) (sig x) = true -> Pi y = Pi x).
+    { intros x y Exy. apply series_eqb_eq in Exy. rewrite !PK, Exy. reflexivity. }
+    destruct (is_nil vl || is_nil vr) eqn:NL.
+    { inversion E; subst V. cbn [filter]. apply orb_true_iff in NL as [NL|NL]; apply is_nil_true in NL; subst.
+      - reflexivity.
+      - cbn [filter is_nil]. rewrite orb_true_r. reflexivity. }
+    destruct (has_dup (map sig vr)) eqn:D1; [discriminate|].
+    destruct (has_dup (map sig (filter (q vr) vl))) eqn:D2; [discriminate|].
+    destruct (has_dup (map fst (map (f vr) (filter (q vr) vl)))) eqn:D3; [discriminate|].
+    inversion E as [EV]. clear E. subst V.
+    (* the matched left samples of shard i *)
+    assert (MI : filter (q (filter Pi vr)) (filter Pi vl) = filter Pi (filter (q vr) vl)).
+    { rewrite (filter_comm Pi (q vr)). rewrite !filter_filter_and. apply filter_ext_in'. intros x _.
+      destruct (Pi x) eqn:Px; cbn [andb]; [|reflexivity].
+      unfold q, bmatched. apply existsb_filter. intros y Hy. rewrite (SAME x y Hy). exact Px. }
+    assert (OUT : map (f (filter Pi vr)) (filter Pi (filter (q vr) vl)) = filter Pi (map (f vr) (filter (q vr) vl))).
+    { rewrite filter_map_comm. rewrite (filter_ext_in' (fun x => Pi (f vr x)) Pi) by (intros; apply PF).
+      apply map_ext_in. intros x Hx. apply filter_In in Hx as [_ Px]. unfold f, bout. f_equal. f_equal.
+      rewrite find_filter; [reflexivity|]. intros y Hy. rewrite (SAME x y Hy). exact Px. }
+    assert (FV : filter Pi (map (f vr) (filter (q vr) vl)) = map (f vr) (filter (q (filter Pi vr)) (filter Pi vl))).
+    { rewrite filter_map_comm. rewrite (filter_ext_in' (fun x => Pi (f vr x)) Pi) by (intros; apply PF). rewrite MI. reflexivity. }
+    destruct (is_nil (filter Pi vl) || is_nil (filter Pi vr)) eqn:NF.
+    { f_equal. rewrite FV. apply orb_true_iff in NF as [NF|NF]; apply is_nil_true in NF; rewrite NF; [reflexivity|].
+      rewrite (filter_nil_all (q []) (filter Pi vl)); [reflexivity | intros; reflexivity]. }
+    assert (D1' : has_dup (map sig (filter Pi vr)) = false).
+    { rewrite (filter_ext_in' Pi (fun x => p (sig x)) vr) by (intros; apply PK).
+      rewrite (map_filter sig p vr). apply has_dup_filter. exact D1. }
+    rewrite D1'. rewrite MI.
+    assert (D2' : has_dup (map sig (filter Pi (filter (q vr) vl))) = false).
+    { rewrite (filter_ext_in' Pi (fun x => p (sig x)) (filter (q vr) vl)) by (intros; apply PK).
+      rewrite (map_filter sig p). apply has_dup_filter. exact D2. }
+    rewrite D2'. rewrite OUT.
+    assert (D3' : has_dup (map fst (filter Pi (map (f vr) (filter (q vr) vl)))) = false).
+    { rewrite (filter_ext_in' Pi (fun x : series * Z => p (fst x)) (map (f vr) (filter (q vr) vl))) by (intros; unfold Pi; apply in_shard_sh).
+      rewrite (map_filter (@fst series Z) p). apply has_dup_filter. exact D3. }
+    rewrite D3'. reflexivity.
+  Qed.
+
+  Lemma drop_name_keep_true (ls : list str) (s : series) : drop_name (keep true ls s) = keep true ls s.
+  Proof.
+    unfold drop_name, keep. rewrite filter_filter_and. apply filter_ext_in'. intros [nm v] _. cbn [fst].
+    destruct (negb (mem nm ls)); cbn [andb]; [|reflexivity]. destruct (negb (str_eqb nm s_name)); reflexivity.
+  Qed.
+
+  Lemma drop_name_shard_by (s : series) : by_ = true -> mem s_name set = false -> sh (drop_name s) = sh s.
+  Proof.
+    intros Hb Hn. unfold sh. rewrite Hb. apply same_projection_same_shard. unfold drop_name. cbn [selected].
+    rewrite filter_filter_and. apply filter_ext_in'. intros [nm v] _. cbn [fst].
+    destruct (mem nm set) eqn:M; [|rewrite andb_false_r; reflexivity]. rewrite andb_true_r.
+    destruct (str_eqb nm s_name) eqn:E; [|reflexivity]. apply str_eqb_eq in E. subst. congruence.
+  Qed.
+
+  (* the result series of e on shard i are the result series of e on all data that belong to shard i *)
+  Theorem shard_commutes e : sound_for by_ set e = true -> forall D V i,
+    qeval e D = Some V ->
+    qeval e (filter (in_shard H by_ set n i) D) = Some (filter (in_shard H by_ set n i) V).
+  Proof.
+    induction e as [ms|op wo g e IH|op on ls l IHl r IHr]; intros S D V i E.
+    - cbn [qeval] in *. inversion E; subst. f_equal. apply filter_comm.
+    - cbn [sound_for] in S. apply andb_true_iff in S as [S1 S2]. cbn [qeval] in *.
+      destruct (qeval e D) as [V'|] eqn:E'; [|discriminate]. cbn in E. inversion E; subst.
+      rewrite (IH S2 D V' i E'). cbn. f_equal. apply aggregate_shard. intro s. apply keep_shard. exact S1.
+    - cbn [sound_for] in S. apply andb_true_iff in S as [S Sr]. apply andb_true_iff in S as [S1 Sl].
+      cbn [qeval] in *.
+      destruct (qeval l D) as [vl|] eqn:El; [|discriminate]. destruct (qeval r D) as [vr|] eqn:Er; [|discriminate].
+      rewrite (IHl Sl D vl i El), (IHr Sr D vr i Er).
+      apply bin_eval_shard; [| |exact E].
+      + intro s. apply keep_shard. destruct by_ eqn:Eb, on; cbn [negb andb] in *;
+          try exact S1; try discriminate.
+        apply andb_true_iff in S1 as [A _]. exact A.
+      + intro s. destruct on; cbn [negb] in *.
+        * destruct by_ eqn:Eb; [|discriminate]. apply andb_true_iff in S1 as [_ B]. apply negb_true_iff in B.
+          apply drop_name_shard_by; auto.
+        * rewrite drop_name_keep_true. reflexivity.
   Qed.
 
   (* ---- the shards partition any vector ---- *)
@@ -160,47 +294,74 @@ Section Sound.
       rewrite E2. rewrite concat_cons_middle. constructor. exact IH.
   Qed.
 
-  (* evaluating e on every shard and concatenating gives the unsharded result, up to order *)
-  Theorem sharded_sound e D : (0 < n)%N -> sound_for by_ set e = true ->
-    Permutation (sharded H by_ set n e D) (qeval e D).
+  Lemma all_some_map_some {A B} (g : A -> B) l : all_some (map (fun i => Some (g i)) l) = Some (map g l).
+  Proof. induction l as [|x l IH]; [reflexivity|]. cbn. rewrite IH. reflexivity. Qed.
+
+  (* when the unsharded evaluation succeeds, every shard succeeds and the concatenated shard
+     results are the unsharded result, up to order *)
+  Theorem sharded_sound e D V : (0 < n)%N -> sound_for by_ set e = true -> qeval e D = Some V ->
+    exists W, sharded H by_ set n e D = Some W /\ Permutation W V.
   Proof.
-    intros Hn S. unfold sharded.
-    rewrite (map_ext _ (fun i => filter (in_shard H by_ set n (N.of_nat i)) (qeval e D)))
-      by (intro i; apply shard_commutes; exact S).
-    apply shards_partition. exact Hn.
+    intros Hn S E. unfold sharded, shard_results.
+    rewrite (map_ext _ (fun i => Some (filter (in_shard H by_ set n (N.of_nat i)) V)))
+      by (intro i; apply shard_commutes; assumption).
+    rewrite all_some_map_some. cbn. eexists. split; [reflexivity|]. apply shards_partition. exact Hn.
   Qed.
 End Sound.
 
 (* ---- from the analyzer's answer to [sound_for] ---- *)
+Lemma name_ok_sub by_ set e e' : (drops_name e' = true -> drops_name e = true) ->
+  name_ok by_ set e = true -> name_ok by_ set e' = true.
+Proof.
+  unfold name_ok. destruct by_; [|auto]. intros Hd N. apply orb_true_iff in N as [N|N]; [|rewrite N; apply orb_true_r].
+  apply negb_true_iff in N. destruct (drops_name e') eqn:E; [rewrite (Hd eq_refl) in N; discriminate | reflexivity].
+Qed.
+
 Lemma analyzer_sound_for e : forall by_ set,
   compatible (scopes (erase e)) by_ set = true -> name_ok by_ set e = true -> sound_for by_ set e = true.
 Proof.
-  induction e as [ms|op wo g e IH]; intros by_ set C N; [reflexivity|].
-  cbn [erase scopes] in C. cbn [app] in C.
-  change ((g, negb wo) :: scopes (erase e)) with ([(g, negb wo)] ++ scopes (erase e)) in C.
-  rewrite compatible_app in C. apply andb_true_iff in C as [C1 C2].
-  cbn [sound_for]. apply andb_true_iff. split.
-  - unfold compatible in C1. unfold name_ok in N. cbn [has_without] in N.
+  induction e as [ms|op wo g e IH|op on ls l IHl r IHr]; intros by_ set C N; [reflexivity| |].
+  - cbn [erase scopes] in C. cbn [app] in C.
+    change ((g, negb wo) :: scopes (erase e)) with ([(g, negb wo)] ++ scopes (erase e)) in C.
+    rewrite compatible_app in C. apply andb_true_iff in C as [C1 C2].
+    cbn [sound_for]. apply andb_true_iff. split.
+    + unfold compatible in C1. unfold name_ok in N. cbn [drops_name] in N.
+      destruct by_; cbn in C1; rewrite andb_true_r in C1.
+      * destruct wo; cbn [negb] in C1; [|exact C1].
+        cbn [orb negb] in N. apply negb_true_iff in N.
+        apply disjoint_spec. intros x Hx [<-|K].
+        -- apply mem_in in Hx. congruence.
+        -- rewrite disjoint_spec in C1. apply (C1 x Hx K).
+      * apply andb_true_iff in C1 as [W C1]. destruct wo; [|discriminate]. cbn.
+        rewrite N. exact C1.
+    + apply IH; [exact C2|]. eapply name_ok_sub; [|exact N]. cbn [drops_name]. intros ->. apply orb_true_r.
+  - cbn [erase scopes] in C. rewrite !compatible_app in C.
+    apply andb_true_iff in C as [C1 C]. apply andb_true_iff in C as [Cl Cr].
+    assert (Nl : name_ok by_ set l = true) by (eapply name_ok_sub; [|exact N]; reflexivity).
+    assert (Nr : name_ok by_ set r = true) by (eapply name_ok_sub; [|exact N]; reflexivity).
+    cbn [sound_for]. rewrite (IHl _ _ Cl Nl), (IHr _ _ Cr Nr), !andb_true_r.
+    unfold compatible in C1. unfold name_ok in N. cbn [drops_name] in N.
     destruct by_; cbn in C1; rewrite andb_true_r in C1.
-    + destruct wo; cbn [negb] in C1; [|exact C1].
-      cbn [orb negb] in N. apply negb_true_iff in N.
-      apply disjoint_spec. intros x Hx [<-|K].
-      * apply mem_in in Hx. congruence.
-      * rewrite disjoint_spec in C1. apply (C1 x Hx K).
-    + apply andb_true_iff in C1 as [W C1]. destruct wo; [|discriminate]. cbn.
-      rewrite N. exact C1.
-  - apply IH; [exact C2|]. unfold name_ok in *. cbn [has_without] in N. destruct by_; [|exact N].
-    destruct wo; cbn [orb negb] in N; [rewrite N; apply orb_true_r | exact N].
+    + cbn [negb orb] in N. destruct on; cbn in C1.
+      * rewrite C1, N. reflexivity.
+      * apply disjoint_spec. rewrite disjoint_spec in C1. intros x Hx [<-|K].
+        -- apply (C1 _ Hx). apply in_or_app. right. left. reflexivity.
+        -- apply (C1 _ Hx). apply in_or_app. left. exact K.
+    + apply andb_true_iff in C1 as [W C1]. destruct on; [discriminate|]. cbn [negb andb].
+      apply subset_spec. intros x Hx. apply mem_in. rewrite forallb_forall in C1. apply C1.
+      destruct Hx as [<-|K]; apply in_or_app; [right; left; reflexivity | left; exact K].
 Qed.
 
 Lemma erase_no_dynamic e : dynamic_labels (erase e) = [].
-Proof. induction e as [ms|op wo g e IH]; [reflexivity|]. cbn. exact IH. Qed.
-
-Theorem sound H n e D by_ set : (0 < n)%N ->
-  analyze (erase e) = St by_ set -> name_ok by_ set e = true ->
-  Permutation (sharded H by_ set n e D) (qeval e D).
 Proof.
-  intros Hn A N. apply sharded_sound; [exact Hn|]. apply analyzer_sound_for; [|exact N].
+  induction e as [ms|op wo g e IH|op on ls l IHl r IHr]; [reflexivity | cbn; exact IH | cbn; rewrite IHl, IHr; reflexivity].
+Qed.
+
+Theorem sound H n e D V by_ set : (0 < n)%N ->
+  analyze (erase e) = St by_ set -> name_ok by_ set e = true -> qeval e D = Some V ->
+  exists W, sharded H by_ set n e D = Some W /\ Permutation W V.
+Proof.
+  intros Hn A N E. apply sharded_sound; [exact Hn| |exact E]. apply analyzer_sound_for; [|exact N].
   pose proof (analyze_compatible (erase e) by_ set A) as C. unfold all_scopes in C.
   rewrite erase_no_dynamic, app_nil_r in C. exact C.
 Qed.
@@ -220,8 +381,10 @@ Qed.
 
 Theorem sound_pred H n e D by_ set tbl : (0 < n)%N ->
   analyze (erase e) = St by_ set -> name_ok by_ set e = true ->
-  pred_ok (CEval e D n by_ set tbl (qeval e D)
-             (map (fun i => qeval e (filter (in_shard H by_ set n (N.of_nat i)) D)) (seq 0 (N.to_nat n)))) = true.
+  pred_ok (CEval e D n by_ set tbl (qeval e D) (shard_results H by_ set n e D)) = true.
 Proof.
-  intros Hn A N. cbn [pred_ok]. apply perm_same_vector. apply (sound H n e D by_ set Hn A N).
+  intros Hn A N. cbn [pred_ok]. destruct (qeval e D) as [V|] eqn:E; [|reflexivity].
+  destruct (sound H n e D V by_ set Hn A N E) as (W & SW & P). unfold sharded in SW.
+  destruct (all_some (shard_results H by_ set n e D)) as [rs|]; [|discriminate]. cbn in SW. inversion SW; subst.
+  apply perm_same_vector. exact P.
 Qed.
